@@ -1601,9 +1601,11 @@ def check_C12(ck):
         ok = a[0] == 0 and b[0] == 0 and la == lb and "static 1 1 1 1 1" in b[1] and "static 0 0 0 0 0" in a[1]
         entry = {"case": name, "declaration_order": perm, "checked_policy": checked, "calls_compared": len([l for l in la if " -> " in l]),
                  "stage_b_equals_stage_a": la == lb, "tampers": []}
-        if not ok and not ck.violations:
+        if not ok and not any(f_ for _, f_ in ck.violations):
             d_ = [x for x in zip(la, lb) if x[0] != x[1]][:3]
             found = a[0] == 0 and b[0] == 0 and bool(d_)
+            if found:
+                ck.violations = []      # a concrete failing program replaces a correspondence break without input
             ck.violation(verif.write_replay("C12", name, {
                 "property": "C12", "kind": ("failing input: a program compiled with the generated static offsets dispatches differently from the one reading them at run time"
                                             if found else "the two-stage program does not build or run"),
